@@ -97,8 +97,12 @@ def job (fields : List String) : Option Job :=
     match pStr bp, pStrs deps with
     | some bp, some deps =>
       -- `-`: the platform of `PackageDescriptor::default()`, which the specification says is linux
-      let v := (Package.mk bp deps (if os = "-" then "linux" else os)).toVal
-      some ⟨Gen.S.PackageDescriptor, v, Spec.Cnb.packageToml, v, true, none⟩
+      let os := if os = "-" then "linux" else os
+      -- `try_from(&str)` holds the reference as uriparse re-prints it; the constructed text is the text given
+      let respell := fun (u : String) => (uriRespell u).getD u
+      let built := (Package.mk (respell bp) (deps.map respell) os).toVal
+      some ⟨Gen.S.PackageDescriptor, built, Spec.Cnb.packageToml, (Package.mk bp deps os).toVal, true,
+        some (built, "uri-respelled-by-uriparse")⟩
     | _, _ => none
   | _ => none
 
@@ -125,7 +129,15 @@ def judge (spec : Schema) (intended : String) (ownReader : Bool) (known : Option
         else if ownReader ∧ rt ≠ "1" then "fail:libcnb's own reader returns a value different from the one written"
         else "ok"
 
-def handle (fields : List String) (obs : String) : String × String :=
+/-- the last field `pre=<what the target path held before the write>` does not enter the model or the specification:
+the written document must be the same whatever was there -/
+def stripPre (fields : List String) : List String :=
+  match fields.reverse with
+  | l :: r => if l.startsWith "pre=" then r.reverse else fields
+  | [] => fields
+
+def handle (fields0 : List String) (obs : String) : String × String :=
+  let fields := stripPre fields0
   match fields with
   | ["execd", pairs] =>
     match allSome ((splitList pairs ",").map pPair) with
